@@ -319,3 +319,42 @@ pub fn netstat<H: ToIpAddr>(host: H) -> Netstat {
         netstat::snapshot(net.fabric.kernel(id))
     })
 }
+
+/// Read-only introspection for the verification harness
+/// (cargo feature `verif-hooks`; not part of the public API).
+#[cfg(feature = "verif-hooks")]
+#[doc(hidden)]
+pub mod verif {
+    use super::*;
+
+    /// Sizes of one host's socket table and its two indexes. `netstat`
+    /// hides `Closed` sockets, so leaked entries are only visible here.
+    #[derive(Debug, Clone, Copy, PartialEq, Eq, Default)]
+    pub struct SocketCounts {
+        pub sockets: usize,
+        pub bindings: usize,
+        pub connections: usize,
+    }
+
+    pub fn socket_counts(id: HostId) -> SocketCounts {
+        CURRENT.with(|c| {
+            let cell = c.borrow();
+            let net = cell.as_ref().expect("no Net installed");
+            let (sockets, bindings, connections) = net.fabric.kernel(id).verif_counts();
+            SocketCounts {
+                sockets,
+                bindings,
+                connections,
+            }
+        })
+    }
+
+    /// `Debug` rendering of one host's kernel (state hashing only).
+    pub fn debug_dump(id: HostId) -> String {
+        CURRENT.with(|c| {
+            let cell = c.borrow();
+            let net = cell.as_ref().expect("no Net installed");
+            format!("{:?}", net.fabric.kernel(id))
+        })
+    }
+}
